@@ -146,7 +146,8 @@ Proof. exact @handle_sat. Qed.
 Print Assumptions C13_result_sat.
 
 (* core: without variables the ascending list of the literals fixed in all models containing the
-   assumptions (via C05; the cached syntactic core when there are no assumptions); with variables
+   assumptions (via C05; the cached core when there are no assumptions - since the repair F22 it
+   is exact on every model with a model count > 0, dead branches or not: C05_core_exact); with variables
    the candidates whose addition does not change the count, the others are left out *)
 Theorem C13_result_core : forall CC (X : extops CC) C n dbg (st : sstate CC) line chs rq,
   wf_sstate C n st -> ext_total X ->
